@@ -333,11 +333,24 @@ func (fx *FnCtx) entryPath() *Path {
 	if fx.spec != nil {
 		c := p.specCtx()
 		c.old = nil
+		c.fn = nil // preconditions talk about parameters, not about locals
+		c.closureCells = p.freeVarCells()
 		for _, r := range fx.spec.Requires {
 			p.assumeClause(c, r, "requires")
 		}
 	}
 	return p
+}
+
+func (p *Path) freeVarCells() map[string]Val {
+	if len(p.fx.fn.FreeVars) == 0 {
+		return nil
+	}
+	m := map[string]Val{}
+	for _, fv := range p.fx.fn.FreeVars {
+		m[fv.Name()] = p.val(fv)
+	}
+	return m
 }
 
 // frameAxiom: on a heap version created at a loop head, locations that existed at entry and are outside the
@@ -364,6 +377,8 @@ func (p *Path) modCond(name, a string) string {
 	c := p.specCtx()
 	c.st = &p.entry
 	c.old = nil
+	c.fn = nil
+	c.closureCells = p.freeVarCells()
 	var ds []string
 	for i, m := range fx.spec.Modifies {
 		locs, err := func() (l []Loc, err error) {
@@ -426,10 +441,13 @@ func (fx *FnCtx) loopPath(head *ssa.BasicBlock) *Path {
 	if fx.spec != nil {
 		c := p.specCtx()
 		c.old = nil
+		c.fn = nil
+		c.closureCells = p.freeVarCells()
 		for _, r := range fx.spec.Requires {
 			p.assumeClause(c, r, "requires")
 		}
 	}
+	replayed := p.replayPrefix(head)
 	ep := fmt.Sprintf("L%d", n)
 	now := "now_" + ep
 	prevNow := "now_0"
@@ -503,7 +521,7 @@ func (fx *FnCtx) loopPath(head *ssa.BasicBlock) *Path {
 	}
 	// deferred calls registered before the loop (Defer instructions in blocks dominating the head)
 	for _, b := range fx.fn.Blocks {
-		if b == head || !b.Dominates(head) {
+		if replayed || b == head || !b.Dominates(head) {
 			continue
 		}
 		for _, in := range b.Instrs {
@@ -535,6 +553,51 @@ func (fx *FnCtx) loopPath(head *ssa.BasicBlock) *Path {
 		}
 	}
 	return p
+}
+
+// replayPrefix: when the blocks dominating a loop head form a straight line from the entry (each ends in a jump to
+// the next), their instructions are re-executed from the entry state so that the values they define (loads of
+// fields, addresses, allocations, deferred calls) are known exactly at the loop head. Obligations of the prefix are
+// not repeated here (they belong to the entry fragment); its heap effects are discarded (the loop head havocs).
+func (p *Path) replayPrefix(head *ssa.BasicBlock) bool {
+	var chain []*ssa.BasicBlock
+	for b := head.Idom(); b != nil; b = b.Idom() {
+		chain = append([]*ssa.BasicBlock{b}, chain...)
+	}
+	if len(chain) == 0 || chain[0] != p.fx.fn.Blocks[0] {
+		return false
+	}
+	for i, b := range chain {
+		next := head
+		if i+1 < len(chain) {
+			next = chain[i+1]
+		}
+		if _, isHead := p.fx.loopHeads[b]; isHead {
+			return false
+		}
+		if len(b.Succs) != 1 || b.Succs[0] != next {
+			return false
+		}
+		for _, in := range b.Instrs {
+			if _, isPhi := in.(*ssa.Phi); isPhi {
+				return false
+			}
+		}
+	}
+	savedSt := p.st.clone()
+	p.quiet = true
+	for _, b := range chain {
+		for _, in := range b.Instrs {
+			switch in.(type) {
+			case *ssa.Jump:
+			default:
+				p.exec(in)
+			}
+		}
+	}
+	p.quiet = false
+	p.st = savedSt
+	return true
 }
 
 func (fx *FnCtx) uniq(n string) string {
@@ -779,6 +842,13 @@ func (p *Path) checkPost(site string, vars map[string]Val, panicExit bool) {
 	c := p.specCtx().with(vars)
 	c.fn = nil
 	c.atExit = true
+	// free variables of a closure are visible in its contract (as the captured variables)
+	if len(fx.fn.FreeVars) > 0 {
+		c.closureCells = map[string]Val{}
+		for _, fv := range fx.fn.FreeVars {
+			c.closureCells[fv.Name()] = p.val(fv)
+		}
+	}
 	clauses := fx.spec.Ensures
 	kind := "post"
 	if panicExit {
